@@ -46,7 +46,14 @@ def r04(ctx):
         leak_z = set() if zin else (a.cfg.reach_after([b], cut_edges=cut_z) & rets)
         if leak_z and zero and (a.cfg.must_pass(b, via_blocks=[zb for (zb, _) in zero if zb != b]) or any(zb == b and zs < si for (zb, zs) in zero)):
             leak_z = set()
-        ctx.check(bool(zero) and not leak_z, 'R04a', NEXT, 'cur_chunk_len=0', a.loc(b, si), 'every path through the Chunk construction passes cur_chunk_len = 0 before returning',
+        okz = bool(zero) and not leak_z
+        if not okz:
+            # the running length may live in a local that is written back at the end: decide it path by path — after the
+            # buffer was taken (length 0) every path must return with cur_chunk_len equal to the buffer's length
+            from . import lenacct
+            r_ = lenacct.Acct(a, 'cur_chunk_len', 'chunkbuf').run()
+            okz = r_.npaths >= 1 and r_.checked >= 2 and not r_.issues
+        ctx.check(okz, 'R04a', NEXT, 'cur_chunk_len=0', a.loc(b, si), 'every path through the Chunk construction passes cur_chunk_len = 0 before returning',
                   'a chunk can be emitted without resetting the open-chunk length')
         f = dict(e[3])
         h, d = f.get('hash'), f.get('data')
@@ -123,10 +130,41 @@ def _subtracts(e, what, frm):
     return False
 
 
+class _PathwiseFallback:
+    """R04c states the size rules on the syntax of Chunker::next; where a sub-check does not recognise the spelling, the
+    same rules are decided path by path on linear forms (lenacct.chunker_spec).  A sub-check fails only if both fail."""
+    CONSTRUCTS = ('skip site', 'skip bound', 'skip cursor', 'window', 'next_match', 'forced cut')
+
+    def __init__(self, ctx, a):
+        self._c, self._a, self._pw = ctx, a, None
+
+    def __getattr__(self, n):
+        return getattr(self._c, n)
+
+    def pathwise(self):
+        if self._pw is None:
+            from . import lenacct
+            r = lenacct.Acct(self._a, 'cur_chunk_len', 'chunkbuf', consumed_index=1, spec=lenacct.chunker_spec).run()
+            self._pw = (r.npaths >= 4 and not r.spec_issues and not [i for i in r.issues if i[0] == 'unknown'], r)
+        return self._pw
+
+    def check(self, cond, rule, fn, construct, site, detail_ok, detail_fail=None, path=None):
+        if not cond and construct in self.CONSTRUCTS:
+            ok, r = self.pathwise()
+            if ok:
+                self._c.check(True, rule, fn, construct, site, detail_ok + ' (spelling not recognised; decided path by path on %d paths)' % r.npaths)
+                return False        # the caller's follow-up sub-checks need the syntactic anchors; they are covered path by path
+            if r.spec_issues and detail_fail is None:
+                mine = [m for (c_, m) in r.spec_issues if c_ == construct] or [m for (_, m) in r.spec_issues]
+                detail_fail = 'cannot establish: %s; path by path: %s' % (detail_ok, mine[0])
+        return self._c.check(cond, rule, fn, construct, site, detail_ok, detail_fail, path)
+
+
 def r04c(ctx):
     from . import paths
     from .core import edges_where
     a = an(ctx.F.body(NEXT))
+    ctx = _PathwiseFallback(ctx, a)
     # the open-chunk length: the field, or a local that carries it through the scan (initialised from the field and
     # written back to it)
     cur_locals = set()
